@@ -117,6 +117,14 @@ def gen_random(rng, big):
     for r, mk in (("R1", r1), ("R2", r2), ("R3", r3)):
         for _ in range(rng.randint(0, 3)):
             lines.append({"tree": mk(True), "c1": C(), "c2": C()})
+    # now and then a daughter written without its own decay under *another spelling* of a resonance of the file
+    # (R1t / R2t / R3t: rho0 next to rho(770)0): decay lines are given for a name, so this one stays a leaf
+    if rng.random() < 0.3:
+        tw = rng.choice(["R1t", "R2t", "R3t"])
+        tree = (T("M", *tags(), kids=[T("R1t"), r2(rng.random() < 0.5)]) if tw == "R1t" else
+                T("M", *tags(), kids=[r1(rng.random() < 0.5), T("R2t")]) if tw == "R2t" else
+                T("M", *tags(), kids=[T("R3t"), T("b")]))
+        lines.append({"tree": tree, "c1": C(), "c2": C()})
     rng.shuffle(lines)
     vars_ = [{"name": n, "fix": rng.choice([0, 2]), "v": f"v{rng.randint(0, 9)}", "e": f"v{rng.randint(0, 9)}"}
              for n in rng.sample(PAR_NAMES, rng.randint(0, 4))]
